@@ -97,6 +97,15 @@ def can_error(ctx):
                     'forbid(principal, action, resource) when { (principal.r.x > 0) && resource != R::"r" };\n'
                     'forbid(principal, action, resource) when { (if principal.n > 0 then true else false) && resource != R::"r" };\n'
                     'forbid(principal, action, resource) when { (principal.n > 0 || true) && resource != R::"r" };\npermit(principal, action, resource);')
+            # the same operands where the dropped error changes the DECISION: `unless { L && false }` forbids, `when { L || true }` permits - unless L errors
+            for lhs in ('principal.r has x', 'principal.n + 1 > 0', 'principal.r.x > 0', 'principal.hasTag("t")', '!(principal.r has x)', 'principal.r has x == true', '(principal.r has x) || principal.n > 0',
+                        'principal has r && principal.r has x', 'principal.n > 0 || true'):
+                for probe in ('forbid(principal, action, resource) unless { (%s) && resource != R::"r" };\npermit(principal, action, resource);' % lhs,
+                              'permit(principal, action, resource) when { (%s) || resource == R::"r" };' % lhs):
+                    rr = views_replay(ctx, 'can_error_assuming_well_formed', 'tpe/residual.rs: Residual::can_error_assuming_well_formed', 'the can-error table lets an error-capable residual be dropped', policies=probe)
+                    if rr[0] != 'encoding_mismatch':
+                        return rr
+                    ctx.mismatches.pop()
             r = views_replay(ctx, 'can_error_assuming_well_formed', 'tpe/residual.rs: Residual::can_error_assuming_well_formed', 'the can-error table lets an error-capable residual be dropped', policies=pols)
             if r[0] == 'encoding_mismatch':
                 ctx.mismatches.pop()
